@@ -8,6 +8,7 @@ fns, opaque external types with assume_specification) and whose executable funct
     //@spec <verus clause text>       requires/ensures/decreases lines, emitted between signature and body
     //@loop <k> <clause text>         invariant/decreases lines for the k-th loop (source order, from 0)
     //@subst <old>=><new>             literal replacement in signature+body (each counted, each listed in evidence)
+    //@subst_re <regex>=><new>        same with a (DOTALL) regular expression, for multi-line `assert!(.., "fmt", ..)`
     //@before <anchor>=><text>        ghost text inserted before first occurrence of anchor in the body
     //@end
 
@@ -100,6 +101,9 @@ def generate(unit, repo):
                 elif d.startswith("//@loop "):
                     _, k, rest = d.split(None, 2)
                     loops.setdefault(int(k), []).append(rest)
+                elif d.startswith("//@subst_re "):
+                    a, b = d[len("//@subst_re "):].split("=>", 1)
+                    substs.append(("re:" + a, b))
                 elif d.startswith("//@subst "):
                     a, b = d[len("//@subst "):].split("=>", 1)
                     substs.append((a, b))
@@ -120,6 +124,14 @@ def generate(unit, repo):
             counts = {}
             body = extract.apply_body_rules(body, counts, info["dropped"])
             for a, b in substs:
+                if a.startswith("re:"):
+                    rx = re.compile(a[3:], re.S)
+                    found = rx.findall(body)
+                    if not found:
+                        raise ValueError("lost anchor: subst_re %r in %s" % (a[3:], spec))
+                    body = rx.sub(lambda _m: b, body)
+                    info["substs"].append({"fn": spec, "old_regex": a[3:], "new": b, "count": len(found)})
+                    continue
                 n = sig.count(a) + body.count(a)
                 if n == 0:
                     raise ValueError("lost anchor: subst %r in %s" % (a, spec))
